@@ -447,6 +447,12 @@ func caseConc(f []string) string {
 	for i, op := range rest {
 		baseline[i] = runOp(op, &tpl, strip)
 	}
+	// the goroutines get a freshly loaded Template: the FIRST evaluation of every node happens concurrently, so state
+	// that is filled in lazily on first use (and is quiet once warm) is exercised too; the baseline above comes from
+	// the Template loaded before
+	if again := runOp(ops.list[0], &tpl, strip); !strings.HasPrefix(again, "OK") {
+		return "CONC\tLOADFAIL\t" + again
+	}
 
 	var wg sync.WaitGroup
 	var mu sync.Mutex
